@@ -91,6 +91,15 @@ def structures(ctx):
     a = C.chain_lines("1HPX", "A", 20, 14)
     b = C.chain_lines("1HPX", "B", 20, 14)
     out.append(("frag-1HPX-AB", a + [C.TER] + b + [C.TER]))
+    # alternate locations in both chains of the dimer: conformation completion looks residues up by chain and number
+    ra = [r for r in residue_ids(a, "A")][4:9]
+    rb = [r for r in residue_ids(b, "B")][6:11]
+    aa, bb = a, b
+    for r_ in ra[::2]:
+        aa = C.add_altloc(aa, r_)
+    for r_ in rb[::2]:
+        bb = C.add_altloc(bb, r_, delta=(-250, 300, 200))
+    out.append(("frag-1HPX-AB+altlocs", aa + [C.TER] + bb + [C.TER]))
     e = C.chain_lines("3SGB", "E", 170, 30)     # contains 192A/192B-like insertion codes? (kept as is)
     i = C.chain_lines("3SGB", "I", 0, 20)
     out.append(("frag-3SGB-EI", e + [C.TER] + i + [C.TER]))
@@ -129,6 +138,8 @@ def run(ctx):
     rels = []
     full = [("3SGB-sequential", C.body(C.test_pdb_text("3SGB")), {"mode": "sequential", "sa": 0, "sb": 0, "cm": {"A": "E", "B": "I"}}),
             ("1HPX-swap-shift", C.body(C.test_pdb_text("1HPX")), {"mode": "none", "sa": -40, "sb": 100, "cm": {"A": "B", "B": "A"}})]
+    if ctx.thorough():
+        full.append(("4DFR-shift-B", C.body(C.test_pdb_text("4DFR")), {"mode": "none", "sa": 0, "sb": 3, "cm": {"A": "A", "B": "B"}}))
     work = [(n, ls, d) for n, ls in structures(ctx) for d in descs] + full
     base_cache = {}
     for name, lines, d in work:
